@@ -487,4 +487,536 @@ theorem decEncLaw : DecEncLaw := by
 
 end Cbor
 
+/-! ### the second law holds for the model codec wherever no float is involved -/
+
+namespace Cbor
+theorem bytesLt_trans : ∀ (a b c : Bytes), bytesLt a b = true → bytesLt b c = true → bytesLt a c = true
+  | [], [], _, h1, _ => by simp [bytesLt] at h1
+  | [], _ :: _, [], _, h2 => by simp [bytesLt] at h2
+  | [], _ :: _, _ :: _, _, _ => by simp [bytesLt]
+  | _ :: _, [], _, h1, _ => by simp [bytesLt] at h1
+  | _ :: _, _ :: _, [], _, h2 => by simp [bytesLt] at h2
+  | x :: xs, y :: ys, z :: zs, h1, h2 => by
+    simp only [bytesLt] at h1 h2 ⊢
+    have ih := bytesLt_trans xs ys zs
+    simp only [UInt8.lt_iff_toNat_lt] at h1 h2 ⊢
+    by_cases hxy : x.toNat < y.toNat
+    · by_cases hyz : y.toNat < z.toNat
+      · have : x.toNat < z.toNat := by omega
+        simp [this]
+      · simp only [hyz, if_false] at h2
+        by_cases hzy : z.toNat < y.toNat
+        · simp [hzy] at h2
+        · have : x.toNat < z.toNat := by omega
+          simp [this]
+    · simp only [hxy, if_false] at h1
+      by_cases hyx : y.toNat < x.toNat
+      · simp [hyx] at h1
+      · simp only [hyx, if_false] at h1
+        have hxe : x.toNat = y.toNat := by omega
+        by_cases hyz : y.toNat < z.toNat
+        · have : x.toNat < z.toNat := by omega
+          simp [this]
+        · simp only [hyz, if_false] at h2
+          by_cases hzy : z.toNat < y.toNat
+          · simp [hzy] at h2
+          · simp only [hzy, if_false] at h2
+            have h3 : ¬ x.toNat < z.toNat := by omega
+            have h4 : ¬ z.toNat < x.toNat := by omega
+            simp only [h3, h4, if_false]
+            exact ih h1 h2
+
+theorem headByte_eq (h : UInt8) : UInt8.ofNat (h.toNat / 32 * 32) + UInt8.ofNat (h.toNat % 32) = h := by
+  apply UInt8.toNat_inj.mp
+  have := UInt8.toNat_lt h
+  simp only [UInt8.toNat_add, UInt8.toNat_ofNat']
+  omega
+
+theorem headByte_eq_lit (h : UInt8) (a : Nat) (ha : h.toNat % 32 = a) :
+    UInt8.ofNat (h.toNat / 32 * 32) + (OfNat.ofNat a : UInt8) = h := by
+  apply UInt8.toNat_inj.mp
+  have := UInt8.toNat_lt h
+  simp only [UInt8.toNat_add, UInt8.toNat_ofNat', UInt8.toNat_ofNat]
+  omega
+
+theorem beNat_lt_pow (b : Bytes) : beNat b < 256 ^ b.length := by
+  have h1 := beNat_beBytes b.length (beNat b)
+  rw [beBytes_beNat b.length b rfl] at h1
+  rw [h1]
+  exact Nat.mod_lt _ (Nat.pow_pos (by omega))
+
+
+theorem decHead_inv {data : Bytes} {mt ai v : Nat} {rest : Bytes}
+    (h : decHead data = .ok (mt, ai, v, rest)) :
+    mt < 8 ∧ ai < 28 ∧ v < 2 ^ 64 ∧ (ai < 24 → v = ai) ∧ (ai = 24 → 24 ≤ v) ∧
+      ((mt = 7 → ai < 25) → data = head mt v ++ rest) := by
+  cases data with
+  | nil => simp [decHead] at h
+  | cons hb tl =>
+    have hlt := UInt8.toNat_lt hb
+    simp only [decHead] at h
+    split at h
+    · rename_i h1
+      simp only [Except.ok.injEq, Prod.mk.injEq] at h
+      obtain ⟨rfl, rfl, rfl, rfl⟩ := h
+      refine ⟨by omega, by omega, by omega, fun _ => rfl, by omega, fun _ => ?_⟩
+      simp only [head, h1, if_true, List.cons_append, List.nil_append, headByte_eq]
+    · rename_i h1
+      split at h
+      · rename_i h2
+        have h2' : hb.toNat % 32 = 24 := by simpa using h2
+        cases tl with
+        | nil => simp at h
+        | cons b r' =>
+          dsimp only at h
+          split at h
+          · cases h
+          · rename_i h3
+            simp only [Except.ok.injEq, Prod.mk.injEq] at h
+            obtain ⟨rfl, rfl, rfl, rfl⟩ := h
+            have hb2 := UInt8.toNat_lt b
+            refine ⟨by omega, by omega, by omega, fun hh => by omega, fun _ => by omega, fun _ => ?_⟩
+            have e1 : ¬ b.toNat < 24 := h3
+            have e2 : b.toNat < 256 := by omega
+            simp only [head, e1, e2, if_false, if_true, List.cons_append, List.nil_append,
+              headByte_eq_lit hb 24 h2', UInt8.ofNat_toNat]
+      · rename_i h2
+        split at h
+        · rename_i h3
+          have h3a : hb.toNat % 32 = 25 := by simpa using h3
+          split at h
+          · cases h
+          · rename_i h4
+            split at h
+            · cases h
+            · rename_i h5
+              simp only [Except.ok.injEq, Prod.mk.injEq] at h
+              obtain ⟨rfl, rfl, rfl, rfl⟩ := h
+              have hl : (tl.take 2).length = 2 := by simp only [List.length_take]; omega
+              have hv := beNat_lt_pow (tl.take 2)
+              rw [hl] at hv
+              refine ⟨by omega, by omega, by omega, fun hh => by omega, fun hh => by omega, fun h7 => ?_⟩
+              have hm : (hb.toNat / 32 == 7) = false := by
+                cases hq : hb.toNat / 32 == 7 with
+                | false => rfl
+                | true => have := h7 (by simpa using hq); omega
+              simp only [hm, Bool.not_false, Bool.and_true, decide_eq_true_eq] at h5
+              have e1 : ¬ beNat (tl.take 2) < 24 := by omega
+              have e2 : ¬ beNat (tl.take 2) < 256 := h5
+              have e3 : beNat (tl.take 2) < 65536 := by omega
+              simp only [head, e1, e2, e3, if_false, if_true, List.cons_append,
+                headByte_eq_lit hb 25 h3a, beBytes_beNat 2 _ hl, List.take_append_drop]
+        · rename_i h3
+          split at h
+          · rename_i h3b
+            have h3a : hb.toNat % 32 = 26 := by simpa using h3b
+            split at h
+            · cases h
+            · rename_i h4
+              split at h
+              · cases h
+              · rename_i h5
+                simp only [Except.ok.injEq, Prod.mk.injEq] at h
+                obtain ⟨rfl, rfl, rfl, rfl⟩ := h
+                have hl : (tl.take 4).length = 4 := by simp only [List.length_take]; omega
+                have hv := beNat_lt_pow (tl.take 4)
+                rw [hl] at hv
+                refine ⟨by omega, by omega, by omega, fun hh => by omega, fun hh => by omega, fun h7 => ?_⟩
+                have hm : (hb.toNat / 32 == 7) = false := by
+                  cases hq : hb.toNat / 32 == 7 with
+                  | false => rfl
+                  | true => have := h7 (by simpa using hq); omega
+                simp only [hm, Bool.not_false, Bool.and_true, decide_eq_true_eq] at h5
+                have e1 : ¬ beNat (tl.take 4) < 24 := by omega
+                have e2 : ¬ beNat (tl.take 4) < 256 := by omega
+                have e3 : ¬ beNat (tl.take 4) < 65536 := h5
+                have e4 : beNat (tl.take 4) < 4294967296 := by omega
+                simp only [head, e1, e2, e3, e4, if_false, if_true, List.cons_append,
+                  headByte_eq_lit hb 26 h3a, beBytes_beNat 4 _ hl, List.take_append_drop]
+          · rename_i h3b
+            split at h
+            · rename_i h3c
+              have h3a : hb.toNat % 32 = 27 := by simpa using h3c
+              split at h
+              · cases h
+              · rename_i h4
+                split at h
+                · cases h
+                · rename_i h5
+                  simp only [Except.ok.injEq, Prod.mk.injEq] at h
+                  obtain ⟨rfl, rfl, rfl, rfl⟩ := h
+                  have hl : (tl.take 8).length = 8 := by simp only [List.length_take]; omega
+                  have hv := beNat_lt_pow (tl.take 8)
+                  rw [hl] at hv
+                  refine ⟨by omega, by omega, by omega, fun hh => by omega, fun hh => by omega, fun h7 => ?_⟩
+                  have hm : (hb.toNat / 32 == 7) = false := by
+                    cases hq : hb.toNat / 32 == 7 with
+                    | false => rfl
+                    | true => have := h7 (by simpa using hq); omega
+                  simp only [hm, Bool.not_false, Bool.and_true, decide_eq_true_eq] at h5
+                  have e1 : ¬ beNat (tl.take 8) < 24 := by omega
+                  have e2 : ¬ beNat (tl.take 8) < 256 := by omega
+                  have e3 : ¬ beNat (tl.take 8) < 65536 := by omega
+                  have e4 : ¬ beNat (tl.take 8) < 4294967296 := h5
+                  simp only [head, e1, e2, e3, e4, if_false, List.cons_append,
+                    headByte_eq_lit hb 27 h3a, beBytes_beNat 8 _ hl, List.take_append_drop]
+            · cases h
+
+
+mutual
+/-- no float anywhere and no integer in the ranges `dcbor` 0.17.1 also accepts in
+float form (`uint` above 2^31, `nint` from 2^63) -/
+def Plain : Cbor → Prop
+  | .uint n => n ≤ 2 ^ 31
+  | .nint n => n < 2 ^ 63
+  | .bytes _ => True
+  | .text _ => True
+  | .array xs => PlainList xs
+  | .map kvs => PlainPairs kvs
+  | .tagged _ x => Plain x
+  | .simple _ => True
+  | .float _ => False
+def PlainList : List Cbor → Prop
+  | [] => True
+  | x :: xs => Plain x ∧ PlainList xs
+def PlainPairs : List (Cbor × Cbor) → Prop
+  | [] => True
+  | (k, v) :: kvs => Plain k ∧ Plain v ∧ PlainPairs kvs
+end
+
+theorem decFloat_not_plain {ai v : Nat} {c : Cbor} (h : decFloat ai v = .ok c) : ¬ c.Plain := by
+  unfold decFloat at h
+  repeat' split at h
+  all_goals dsimp only at h
+  all_goals repeat' split at h
+  all_goals first
+    | (cases h; done)
+    | (injection h with h; subst h; simp only [Plain, not_false_eq_true]; done)
+    | (injection h with h; subst h; simp only [Plain]; omega)
+
+
+/-- what the three decoding functions guarantee at a given fuel -/
+def DecInvAt (fuel : Nat) : Prop :=
+  (∀ data c rest, decItem fuel data = .ok (c, rest) → c.Plain → data = c.enc ++ rest ∧ c.Valid) ∧
+  (∀ n data xs rest, decItems fuel n data = .ok (xs, rest) → PlainList xs →
+      data = encList xs ++ rest ∧ ValidList xs ∧ xs.length = n) ∧
+  (∀ n prev data kvs rest, decPairs fuel n prev data = .ok (kvs, rest) → PlainPairs kvs →
+      data = encPairs kvs ++ rest ∧ ValidPairs kvs ∧ kvs.length = n ∧ KeysAsc (keysEnc kvs) ∧
+        (∀ p, prev = some p → ∀ k ∈ keysEnc kvs, bytesLt p k = true))
+
+theorem decItems_zero_n (fuel : Nat) (data : Bytes) : decItems fuel 0 data = .ok ([], data) := by
+  cases fuel <;> simp [decItems]
+
+theorem decPairs_zero_n (fuel : Nat) (prev : Option Bytes) (data : Bytes) :
+    decPairs fuel 0 prev data = .ok ([], data) := by
+  cases fuel <;> simp [decPairs]
+
+theorem decInv_zero : DecInvAt 0 := by
+  refine ⟨?_, ?_, ?_⟩
+  · intro data c rest h
+    simp [decItem] at h
+  · intro n data xs rest h _
+    cases n with
+    | zero =>
+      rw [decItems_zero_n] at h
+      simp only [Except.ok.injEq, Prod.mk.injEq] at h
+      obtain ⟨rfl, rfl⟩ := h
+      simp [encList, ValidList]
+    | succ n => simp [decItems] at h
+  · intro n prev data kvs rest h _
+    cases n with
+    | zero =>
+      rw [decPairs_zero_n] at h
+      simp only [Except.ok.injEq, Prod.mk.injEq] at h
+      obtain ⟨rfl, rfl⟩ := h
+      simp [encPairs, ValidPairs, KeysAsc, keysEnc]
+    | succ n => simp [decPairs] at h
+
+
+theorem decInv_item_succ (fuel : Nat) (ih : DecInvAt fuel) :
+    ∀ data c rest, decItem (fuel + 1) data = .ok (c, rest) → c.Plain →
+      data = c.enc ++ rest ∧ c.Valid := by
+  obtain ⟨ih1, ih2, ih3⟩ := ih
+  intro data c rest h hpl
+  simp only [decItem] at h
+  cases hh : decHead data with
+  | error e => rw [hh] at h; cases h
+  | ok q =>
+    obtain ⟨mt, ai, v, r0⟩ := q
+    rw [hh] at h
+    dsimp only at h
+    obtain ⟨hmt, hai, hv, hlow, h24, hdata⟩ := decHead_inv hh
+    split at h
+    · -- uint
+      rename_i hm
+      have hm' : mt = 0 := by simpa using hm
+      subst hm'
+      simp only [Except.ok.injEq, Prod.mk.injEq] at h
+      obtain ⟨rfl, rfl⟩ := h
+      exact ⟨by simpa only [enc] using hdata (by omega), by simpa only [Valid] using hv⟩
+    · rename_i hm0
+      split at h
+      · -- nint
+        rename_i hm
+        have hm' : mt = 1 := by simpa using hm
+        subst hm'
+        simp only [Except.ok.injEq, Prod.mk.injEq] at h
+        obtain ⟨rfl, rfl⟩ := h
+        exact ⟨by simpa only [enc] using hdata (by omega), by simpa only [Valid] using hv⟩
+      · rename_i hm1
+        split at h
+        · -- bytes
+          rename_i hm
+          have hm' : mt = 2 := by simpa using hm
+          subst hm'
+          split at h
+          · cases h
+          · rename_i hlen
+            simp only [Except.ok.injEq, Prod.mk.injEq] at h
+            obtain ⟨rfl, rfl⟩ := h
+            have hl : (r0.take v).length = v := by simp only [List.length_take]; omega
+            refine ⟨?_, by simp only [Valid, hl]; exact hv⟩
+            simp only [enc, hl, List.append_assoc, List.take_append_drop]
+            exact hdata (by omega)
+        · rename_i hm2
+          split at h
+          · -- text
+            rename_i hm
+            have hm' : mt = 3 := by simpa using hm
+            subst hm'
+            split at h
+            · cases h
+            · rename_i hlen
+              split at h
+              · rename_i hutf
+                simp only [Except.ok.injEq, Prod.mk.injEq] at h
+                obtain ⟨rfl, rfl⟩ := h
+                have hl : (r0.take v).length = v := by simp only [List.length_take]; omega
+                refine ⟨?_, by simp only [Valid, hl, hutf, and_true]; exact hv⟩
+                simp only [enc, hl, List.append_assoc, List.take_append_drop]
+                exact hdata (by omega)
+              · cases h
+          · rename_i hm3
+            split at h
+            · -- array
+              rename_i hm
+              have hm' : mt = 4 := by simpa using hm
+              subst hm'
+              cases hr : decItems fuel v r0 with
+              | error e => rw [hr] at h; cases h
+              | ok q =>
+                obtain ⟨xs, r⟩ := q
+                rw [hr] at h
+                simp only [Except.ok.injEq, Prod.mk.injEq] at h
+                obtain ⟨rfl, rfl⟩ := h
+                simp only [Plain] at hpl
+                obtain ⟨e1, e2, e3⟩ := ih2 v r0 xs r hr hpl
+                refine ⟨?_, by simp only [Valid, e3, e2, and_true]; exact hv⟩
+                simp only [enc, e3, List.append_assoc, ← e1]
+                exact hdata (by omega)
+            · rename_i hm4
+              split at h
+              · -- map
+                rename_i hm
+                have hm' : mt = 5 := by simpa using hm
+                subst hm'
+                cases hr : decPairs fuel v none r0 with
+                | error e => rw [hr] at h; cases h
+                | ok q =>
+                  obtain ⟨kvs, r⟩ := q
+                  rw [hr] at h
+                  simp only [Except.ok.injEq, Prod.mk.injEq] at h
+                  obtain ⟨rfl, rfl⟩ := h
+                  simp only [Plain] at hpl
+                  obtain ⟨e1, e2, e3, e4, _⟩ := ih3 v none r0 kvs r hr hpl
+                  refine ⟨?_, by simp only [Valid, e3, e2, e4, and_true]; exact hv⟩
+                  simp only [enc, e3, List.append_assoc, ← e1]
+                  exact hdata (by omega)
+              · rename_i hm5
+                split at h
+                · -- tagged
+                  rename_i hm
+                  have hm' : mt = 6 := by simpa using hm
+                  subst hm'
+                  cases hr : decItem fuel r0 with
+                  | error e => rw [hr] at h; cases h
+                  | ok q =>
+                    obtain ⟨x, r⟩ := q
+                    rw [hr] at h
+                    simp only [Except.ok.injEq, Prod.mk.injEq] at h
+                    obtain ⟨rfl, rfl⟩ := h
+                    simp only [Plain] at hpl
+                    obtain ⟨e1, e2⟩ := ih1 r0 x r hr hpl
+                    refine ⟨?_, by simp only [Valid, e2, and_true]; exact hv⟩
+                    simp only [enc, List.append_assoc, ← e1]
+                    exact hdata (by omega)
+                · rename_i hm6
+                  have hm7 : mt = 7 := by
+                    simp only [beq_iff_eq] at hm0 hm1 hm2 hm3 hm4 hm5 hm6
+                    omega
+                  subst hm7
+                  split at h
+                  · -- float: never plain
+                    cases hd : decFloat ai v with
+                    | error e => rw [hd] at h; cases h
+                    | ok c' =>
+                      rw [hd] at h
+                      simp only [Except.ok.injEq, Prod.mk.injEq] at h
+                      obtain ⟨rfl, rfl⟩ := h
+                      exact absurd hpl (decFloat_not_plain hd)
+                  · rename_i hfl
+                    simp only [Bool.or_eq_true, beq_iff_eq, not_or] at hfl
+                    split at h
+                    · rename_i hs
+                      simp only [Bool.or_eq_true, beq_iff_eq] at hs
+                      simp only [Except.ok.injEq, Prod.mk.injEq] at h
+                      obtain ⟨rfl, rfl⟩ := h
+                      refine ⟨?_, by simp only [Valid]; omega⟩
+                      simp only [enc]
+                      apply hdata
+                      intro _
+                      omega
+                    · cases h
+
+
+theorem decInv_items_succ (fuel : Nat) (ih : DecInvAt fuel) :
+    ∀ n data xs rest, decItems (fuel + 1) n data = .ok (xs, rest) → PlainList xs →
+      data = encList xs ++ rest ∧ ValidList xs ∧ xs.length = n := by
+  obtain ⟨ih1, ih2, _⟩ := ih
+  intro n data xs rest h hpl
+  cases n with
+  | zero =>
+    rw [decItems_zero_n] at h
+    simp only [Except.ok.injEq, Prod.mk.injEq] at h
+    obtain ⟨rfl, rfl⟩ := h
+    simp [encList, ValidList]
+  | succ n =>
+    simp only [decItems] at h
+    cases hx : decItem fuel data with
+    | error e => rw [hx] at h; cases h
+    | ok q =>
+      obtain ⟨x, r⟩ := q
+      rw [hx] at h
+      dsimp only at h
+      cases hr : decItems fuel n r with
+      | error e => rw [hr] at h; cases h
+      | ok q2 =>
+        obtain ⟨xs', r'⟩ := q2
+        rw [hr] at h
+        simp only [Except.ok.injEq, Prod.mk.injEq] at h
+        obtain ⟨rfl, rfl⟩ := h
+        simp only [PlainList] at hpl
+        obtain ⟨a1, a2⟩ := ih1 data x r hx hpl.1
+        obtain ⟨b1, b2, b3⟩ := ih2 n r xs' r' hr hpl.2
+        refine ⟨?_, by simp only [ValidList, a2, b2, and_self], by simp only [List.length_cons, b3]⟩
+        simp only [encList, List.append_assoc, ← b1]
+        exact a1
+
+theorem decInv_pairs_succ (fuel : Nat) (ih : DecInvAt fuel) :
+    ∀ n prev data kvs rest, decPairs (fuel + 1) n prev data = .ok (kvs, rest) → PlainPairs kvs →
+      data = encPairs kvs ++ rest ∧ ValidPairs kvs ∧ kvs.length = n ∧ KeysAsc (keysEnc kvs) ∧
+        (∀ p, prev = some p → ∀ k ∈ keysEnc kvs, bytesLt p k = true) := by
+  obtain ⟨ih1, _, ih3⟩ := ih
+  intro n prev data kvs rest h hpl
+  cases n with
+  | zero =>
+    rw [decPairs_zero_n] at h
+    simp only [Except.ok.injEq, Prod.mk.injEq] at h
+    obtain ⟨rfl, rfl⟩ := h
+    simp [encPairs, ValidPairs, KeysAsc, keysEnc]
+  | succ n =>
+    simp only [decPairs] at h
+    cases hk : decItem fuel data with
+    | error e => rw [hk] at h; cases h
+    | ok q =>
+      obtain ⟨k, r⟩ := q
+      rw [hk] at h
+      dsimp only at h
+      cases hv : decItem fuel r with
+      | error e => rw [hv] at h; cases h
+      | ok q2 =>
+        obtain ⟨v, r'⟩ := q2
+        rw [hv] at h
+        dsimp only at h
+        cases hr : decPairs fuel n (some k.enc) r' with
+        | error e =>
+          rw [hr] at h
+          dsimp only at h
+          have hne : ∀ (bb : Bool), (if bb = true then
+              (Except.error DecErr.mapOrder : Except DecErr (List (Cbor × Cbor) × Bytes))
+              else Except.error e) ≠ Except.ok (kvs, rest) := by
+            intro bb; cases bb <;> simp
+          exact absurd h (hne _)
+        | ok q3 =>
+          obtain ⟨kvs', r''⟩ := q3
+          rw [hr] at h
+          dsimp only at h
+          have fin : (∀ p, prev = some p → bytesLt p k.enc = true) →
+              kvs = (k, v) :: kvs' → rest = r'' →
+              data = encPairs kvs ++ rest ∧ ValidPairs kvs ∧ kvs.length = n + 1 ∧
+                KeysAsc (keysEnc kvs) ∧ (∀ p, prev = some p → ∀ k ∈ keysEnc kvs, bytesLt p k = true) := by
+            intro hord hkvs hrest
+            subst hkvs
+            subst hrest
+            simp only [PlainPairs] at hpl
+            obtain ⟨a1, a2⟩ := ih1 data k r hk hpl.1
+            obtain ⟨b1, b2⟩ := ih1 r v r' hv hpl.2.1
+            obtain ⟨c1, c2, c3, c4, c5⟩ := ih3 n (some k.enc) r' kvs' rest hr hpl.2.2
+            have hkk : ∀ k' ∈ keysEnc kvs', bytesLt k.enc k' = true := c5 k.enc rfl
+            refine ⟨?_, by simp only [ValidPairs, a2, b2, c2, and_self],
+              by simp only [List.length_cons, c3], ?_, ?_⟩
+            · simp only [encPairs, List.append_assoc, ← c1, ← b1]
+              exact a1
+            · simp only [KeysAsc, keysEnc, List.map_cons, List.pairwise_cons]
+              exact ⟨hkk, c4⟩
+            · intro p hp k' hk'
+              have hpk : bytesLt p k.enc = true := hord p hp
+              simp only [keysEnc, List.map_cons, List.mem_cons] at hk'
+              rcases hk' with rfl | hk'
+              · exact hpk
+              · exact bytesLt_trans _ _ _ hpk (hkk k' hk')
+          cases prev with
+          | none =>
+            simp only [Bool.not_true, Bool.false_eq_true, if_false, Except.ok.injEq, Prod.mk.injEq] at h
+            exact fin (by intro p hp; cases hp) h.1.symm h.2.symm
+          | some p =>
+            cases hlt : bytesLt p k.enc with
+            | false => simp [hlt] at h
+            | true =>
+              simp only [hlt, Bool.not_true, Bool.false_eq_true, if_false, Except.ok.injEq,
+                Prod.mk.injEq] at h
+              exact fin (by intro p' hp'; injection hp' with hp'; subst hp'; exact hlt) h.1.symm h.2.symm
+
+theorem decInv_all : ∀ fuel, DecInvAt fuel
+  | 0 => decInv_zero
+  | fuel + 1 =>
+    ⟨decInv_item_succ fuel (decInv_all fuel), decInv_items_succ fuel (decInv_all fuel),
+      decInv_pairs_succ fuel (decInv_all fuel)⟩
+
+/-- the second law holds at every input whose tree is `Plain` -/
+theorem encDec_of_plain {b : Bytes} {c : Cbor} (hd : dec b = .ok c) (hp : c.Plain) :
+    c.enc = b ∧ c.Valid := by
+  unfold dec at hd
+  cases hi : decItem (2 * b.length + 2) b with
+  | error e => rw [hi] at hd; cases hd
+  | ok q =>
+    obtain ⟨c', rest⟩ := q
+    rw [hi] at hd
+    dsimp only at hd
+    split at hd
+    · rename_i hr
+      injection hd with hd
+      subst hd
+      have hr' : rest = [] := by simpa using hr
+      subst hr'
+      obtain ⟨e1, e2⟩ := (decInv_all _).1 b c' [] hi hp
+      exact ⟨by simpa using e1.symm, e2⟩
+    · cases hd
+
+end Cbor
+
+/-- the second law at `b`, for the model codec, when the tree of `b` is `Plain` -/
+theorem encDecAt_of_plain {b : Bytes} (hp : ∀ c, Cbor.dec b = .ok c → c.Plain) : EncDecAt b :=
+  fun c hc => Cbor.encDec_of_plain hc (hp c hc)
+
 end EnvVerif
